@@ -52,18 +52,9 @@ def grid_pairs(S):
     from bounded import gridbank as gb
 
     t0 = time.time()
-    P = dict(fpol="profile", pressure=True)
-    base = [
-        gb.cfg("cdn", dict(orthogonal=False, y_boundary_guards=0), label="cdn-nonorth-noguards", **P),
-        gb.cfg("cdn", dict(orthogonal=False), label="cdn-nonorth", **P),
-        gb.cfg("lsn", dict(orthogonal=True, y_boundary_guards=0), label="lsn-orth-noguards", **P),
-        gb.cfg("lsn", dict(orthogonal=True), label="lsn-orth", **P),
-    ]
-    if S.tier == "thorough":
-        base += [gb.cfg("udn", dict(orthogonal=False, y_boundary_guards=0), label="udn-nonorth-noguards", **P), gb.cfg("usn", dict(orthogonal=True, y_boundary_guards=1), label="usn-orth", **P)]
-    cfgs = []
-    for c in base:
-        cfgs += [c, dict(c, worker_copies=True, label=c["label"] + "[worker copies]")]
+    from bounded import gridrun
+
+    cfgs = [c for pair in gridrun.worker_copy_pairs(S.tier) for c in pair]
     res = gb.generate_many(cfgs)
     rows, bad = [], []
     n = 0
